@@ -7,6 +7,10 @@
 import Cgp.ItsOps
 import Cgp.Props.C10
 import Cgp.Proofs.C04
+import Cgp.System
+import Cgp.Props.C01
+import Cgp.Props.C02
+import Cgp.Props.C03
 namespace Cgp.Props.C04
 open Cgp Cgp.Xdr Cgp.Its
 
@@ -219,5 +223,274 @@ theorem hub_address_not_checked (st : State) (other : Bytes) (c i sa payload : B
   cases execute H S k st c i sa payload with
   | error e => exact ⟨fun ⟨_, h⟩ => (by cases h), fun ⟨_, h⟩ => (by cases h)⟩
   | ok r => exact ⟨fun _ => ⟨_, rfl⟩, fun _ => ⟨_, rfl⟩⟩
+
+/-! ### end to end: the service inside the whole system (gateway operations are the gateway model's own) -/
+
+section SystemLevel
+variable {σ : Type} (V : Bytes → Bytes → σ → Bool)
+
+/-- the system starts with a freshly constructed gateway (typed initial signer sets) inside -/
+def Started (w0 : System.World) : Prop :=
+  ∃ (owner operator : Addr) (domain : Bytes) (minDelay retention : Nat) (sets : List Gateway.WSigners),
+    (∀ ws ∈ sets, ws.Typed) ∧
+    Gateway.constructed H owner operator domain minDelay retention sets w0.now = some ⟨w0.its.gw, w0.now⟩
+
+/-! #### helpers: what one system step does to the gateway state held inside the service -/
+
+theorem sys_step_its (w : System.World) (op : Op) (hng : ∀ f, op ≠ .gateway f) :
+    System.step H S V k w (.its op) =
+      ({ w with its := (step H S k w.its op).1 }, .its (step H S k w.its op).2) := by
+  cases op <;> first | rfl | exact absurd rfl (hng _)
+
+theorem sys_trace_cons (w : System.World) (op : System.Op σ) (ops : List (System.Op σ)) :
+    System.trace H S V k w (op :: ops) =
+      (w, op, (System.step H S V k w op).2) :: System.trace H S V k (System.step H S V k w op).1 ops := rfl
+
+/-- a delivery to the service either fails and changes nothing, or succeeds, found the approval of exactly the
+    claimed message, and consumed it -/
+theorem sys_execute_cases (w : System.World) (c i sa p : Bytes) :
+    ((∃ e, (System.step H S V k w (.its (.execute c i sa p))).2 = .its (.err e)) ∧
+      (System.step H S V k w (.its (.execute c i sa p))).1 = w) ∨
+    (∃ evs, (System.step H S V k w (.its (.execute c i sa p))).2 = .its (.ok evs) ∧
+      (System.step H S V k w (.its (.execute c i sa p))).1.its.gw = Cgp.Proofs.C04.consumed w.its.gw c i ∧
+      w.its.gw.approvals c i = .approved (Gateway.messageHash H (claimed H w.its c i sa p)) ∧
+      (System.step H S V k w (.its (.execute c i sa p))).1.now = w.now) := by
+  rw [sys_step_its H S k V w _ (by intro f hf; cases hf)]
+  have hstep : step H S k w.its (.execute c i sa p) = wrapEv w.its (execute H S k w.its c i sa p) := rfl
+  rw [hstep]
+  cases hx : execute H S k w.its c i sa p with
+  | error e => exact Or.inl ⟨⟨e, rfl⟩, rfl⟩
+  | ok r =>
+    have hi := Cgp.Proofs.C04.execute_inv H S k hx
+    exact Or.inr ⟨r.2, rfl, hi.2.2.2.1, hi.1, rfl⟩
+
+/-- every service operation leaves the gateway state alone or consumes one approval; the clock is untouched -/
+theorem sys_its_gw (w : System.World) (op : Op) :
+    (System.step H S V k w (.its op)).1.now = w.now ∧
+    ((System.step H S V k w (.its op)).1.its.gw = w.its.gw ∨
+     ∃ c i, (System.step H S V k w (.its op)).1.its.gw = Cgp.Proofs.C04.consumed w.its.gw c i) := by
+  by_cases hg : ∃ f, op = .gateway f
+  · obtain ⟨f, rfl⟩ := hg
+    exact ⟨rfl, Or.inl rfl⟩
+  · by_cases he : ∃ c' i' sa p, op = .execute c' i' sa p
+    · obtain ⟨c', i', sa, p, rfl⟩ := he
+      rcases sys_execute_cases H S k V w c' i' sa p with ⟨_, h2⟩ | ⟨evs, _, h2, _, h3⟩
+      · rw [h2]; exact ⟨rfl, Or.inl rfl⟩
+      · exact ⟨h3, Or.inr ⟨c', i', h2⟩⟩
+    · rw [sys_step_its H S k V w op (fun f h => hg ⟨f, h⟩)]
+      refine ⟨rfl, Or.inl ?_⟩
+      exact Cgp.Proofs.C04.step_gw H S k w.its op (fun c' i' sa p h => he ⟨c', i', sa, p, h⟩) (fun f h => hg ⟨f, h⟩)
+
+theorem service_keeps_gateway_auth_aux (w : System.World) (op : Its.Op) :
+    (System.step H S V k w (.its op)).1.its.gw.epoch = w.its.gw.epoch ∧
+    (System.step H S V k w (.its op)).1.its.gw.hashByEpoch = w.its.gw.hashByEpoch ∧
+    (System.step H S V k w (.its op)).1.its.gw.epochByHash = w.its.gw.epochByHash ∧
+    (System.step H S V k w (.its op)).1.its.gw.owner = w.its.gw.owner ∧
+    (System.step H S V k w (.its op)).1.its.gw.operator = w.its.gw.operator ∧
+    (System.step H S V k w (.its op)).1.its.gw.lastRot = w.its.gw.lastRot ∧
+    (System.step H S V k w (.its op)).1.now = w.now := by
+  obtain ⟨h1, h2 | ⟨c, i, h2⟩⟩ := sys_its_gw H S k V w op
+  · rw [h2]; exact ⟨rfl, rfl, rfl, rfl, rfl, rfl, h1⟩
+  · rw [h2]; exact ⟨rfl, rfl, rfl, rfl, rfl, rfl, h1⟩
+
+/-- every typed system step preserves the gateway invariant of C01 -/
+theorem sys_step_inv (w : System.World) (op : System.Op σ) (hty : System.TypedOp op)
+    (hinv : Cgp.Props.C01.AInv H w.its.gw) :
+    Cgp.Props.C01.AInv H (System.step H S V k w op).1.its.gw := by
+  cases op with
+  | gw g => exact Cgp.Props.C01.AInv_step H V ⟨w.its.gw, w.now⟩ g hty hinv
+  | its io =>
+    obtain ⟨_, h2 | ⟨c, i, h2⟩⟩ := sys_its_gw H S k V w io
+    · rw [h2]; exact hinv
+    · rw [h2]; exact Cgp.Props.C01.AInv_sameAuth H _ _ hinv ⟨rfl, rfl, rfl, rfl⟩
+
+/-- one system step: an `approved h` record after the step was there before, or the step was a successful
+    `approve_messages` with a valid proof whose batch contains a message with that key and hash -/
+theorem sys_step_approved (w : System.World) (op : System.Op σ) (hty : System.TypedOp op)
+    (hinv : Cgp.Props.C01.AInv H w.its.gw) (c i h : Bytes)
+    (h1 : (System.step H S V k w op).1.its.gw.approvals c i = .approved h) :
+    w.its.gw.approvals c i = .approved h ∨
+    (∃ ms proof gevs m, op = .gw (.approve ms proof) ∧ (System.step H S V k w op).2 = .gw (.ok gevs) ∧ m ∈ ms ∧
+        m.sourceChain = c ∧ m.messageId = i ∧ Gateway.messageHash H m = h ∧
+        Gateway.ProofValid H V w.its.gw (Gateway.approveDataHash H ms) proof) ∨ Gateway.Collision H := by
+  cases op with
+  | gw g =>
+    rcases Cgp.Props.C01.step_approved H V ⟨w.its.gw, w.now⟩ g hty hinv c i h h1 with
+      h2 | ⟨ms, proof, evs, m, rfl, hobs, hr⟩ | hcol
+    · exact Or.inl h2
+    · refine Or.inr (Or.inl ⟨ms, proof, evs, m, rfl, ?_, hr⟩)
+      show System.Obs.gw (Gateway.step H V ⟨w.its.gw, w.now⟩ (.approve ms proof)).2 = _
+      rw [hobs]
+    · exact Or.inr (Or.inr hcol)
+  | its io =>
+    left
+    obtain ⟨_, h2 | ⟨c', i', h2⟩⟩ := sys_its_gw H S k V w io
+    · rw [h2] at h1; exact h1
+    · rw [h2] at h1
+      simp only [Cgp.Proofs.C04.consumed] at h1
+      split at h1
+      · cases h1
+      · exact h1
+
+theorem sys_trace_signed (ops : List (System.Op σ)) : ∀ (w0 : System.World), Cgp.Props.C01.AInv H w0.its.gw →
+    (∀ op ∈ ops, System.TypedOp op) →
+    ∀ (pre post : List (System.World × System.Op σ × System.Obs)) (w : System.World)
+      (c i sa payload : Bytes) (evs : List Event),
+    System.trace H S V k w0 ops = pre ++ (w, .its (.execute c i sa payload), .its (.ok evs)) :: post →
+    w0.its.gw.approvals c i = .approved (Gateway.messageHash H (claimed H w.its c i sa payload)) ∨
+    (∃ wa ms proof gevs m,
+        (wa, System.Op.gw (.approve ms proof), System.Obs.gw (.ok gevs)) ∈ pre ∧ m ∈ ms ∧
+        m.sourceChain = c ∧ m.messageId = i ∧
+        Gateway.messageHash H m = Gateway.messageHash H (claimed H w.its c i sa payload) ∧
+        Gateway.ProofValid H V wa.its.gw (Gateway.approveDataHash H ms) proof)
+    ∨ Gateway.Collision H := by
+  induction ops with
+  | nil =>
+    intro w0 _ _ pre post w c i sa payload evs ht
+    simp [System.trace] at ht
+  | cons op ops ih =>
+    intro w0 hinv hty pre post w c i sa payload evs ht
+    rw [sys_trace_cons] at ht
+    have hop : System.TypedOp op := hty op List.mem_cons_self
+    cases pre with
+    | nil =>
+      simp only [List.nil_append, List.cons.injEq, Prod.mk.injEq] at ht
+      obtain ⟨⟨rfl, rfl, hb⟩, _⟩ := ht
+      rcases sys_execute_cases H S k V w0 c i sa payload with ⟨⟨e, he⟩, _⟩ | ⟨evs', _, _, h3, _⟩
+      · rw [he] at hb; cases hb
+      · exact Or.inl h3
+    | cons e pre' =>
+      simp only [List.cons_append, List.cons.injEq] at ht
+      obtain ⟨rfl, ht⟩ := ht
+      rcases ih (System.step H S V k w0 op).1 (sys_step_inv H S k V w0 op hop hinv)
+          (fun o ho => hty o (List.mem_cons_of_mem _ ho)) pre' post w c i sa payload evs ht with
+        h1 | ⟨wa, ms, proof, gevs, m, hmem, hr⟩ | hcol
+      · rcases sys_step_approved H S k V w0 op hop hinv c i _ h1 with h2 | ⟨ms, proof, gevs, m, rfl, hobs, hr⟩ | hcol
+        · exact Or.inl h2
+        · refine Or.inr (Or.inl ⟨w0, ms, proof, gevs, m, ?_, hr⟩)
+          rw [hobs]
+          exact List.mem_cons_self
+        · exact Or.inr (Or.inr hcol)
+      · exact Or.inr (Or.inl ⟨wa, ms, proof, gevs, m, List.mem_cons_of_mem _ hmem, hr⟩)
+      · exact Or.inr (Or.inr hcol)
+
+/-- **every delivery the service acts on was signed**: in every history of the whole system that starts from a freshly
+    constructed gateway, each successful `execute` is preceded by a successful `approve_messages` call whose batch
+    contains a message with this (chain, id) and the same message hash as the delivery the service claims to be
+    executing, and whose proof was valid at that moment — signatures of a registered, still-retained signer set with
+    combined weight reaching its threshold over the digest binding domain, set and batch (`ProofValid`, C01) — or a
+    hash collision is exhibited. -/
+theorem delivery_was_signed (w0 : System.World) (hs : Started H w0) (ops : List (System.Op σ))
+    (hty : ∀ op ∈ ops, System.TypedOp op)
+    (pre post : List (System.World × System.Op σ × System.Obs)) (w : System.World)
+    (c i sa payload : Bytes) (evs : List Event)
+    (ht : System.trace H S V k w0 ops = pre ++ (w, .its (.execute c i sa payload), .its (.ok evs)) :: post) :
+    (∃ wa ms proof gevs m,
+        (wa, System.Op.gw (.approve ms proof), System.Obs.gw (.ok gevs)) ∈ pre ∧ m ∈ ms ∧
+        m.sourceChain = c ∧ m.messageId = i ∧
+        Gateway.messageHash H m = Gateway.messageHash H (claimed H w.its c i sa payload) ∧
+        Gateway.ProofValid H V wa.its.gw (Gateway.approveDataHash H ms) proof)
+    ∨ Gateway.Collision H := by
+  obtain ⟨owner, operator, domain, minDelay, retention, sets, hsets, hc⟩ := hs
+  have hinv := Cgp.Props.C01.AInv_constructed H owner operator domain minDelay retention sets w0.now
+    ⟨w0.its.gw, w0.now⟩ hsets hc
+  have h0 := Cgp.Props.C01.constructed_no_approvals H owner operator domain minDelay retention sets w0.now
+    ⟨w0.its.gw, w0.now⟩ hc c i
+  rcases sys_trace_signed H S k V ops w0 hinv hty pre post w c i sa payload evs ht with h1 | h1
+  · rw [h0] at h1; cases h1
+  · exact h1
+
+
+/-- successful deliveries of (chain, id) in a system history -/
+def sysDeliveries (c i : Bytes) : List (System.World × System.Op σ × System.Obs) → Nat
+  | (_, .its (.execute c' i' _ _), .its (.ok _)) :: t => sysDeliveries c i t + (if c' = c ∧ i' = i then 1 else 0)
+  | _ :: t => sysDeliveries c i t
+  | [] => 0
+
+/-- contribution of one history entry to `sysDeliveries` -/
+def sysHit (c i : Bytes) : System.Op σ → System.Obs → Nat
+  | .its (.execute c' i' _ _), .its (.ok _) => if c' = c ∧ i' = i then 1 else 0
+  | _, _ => 0
+
+theorem sysDeliveries_cons (c i : Bytes) (w : System.World) (op : System.Op σ) (o : System.Obs)
+    (t : List (System.World × System.Op σ × System.Obs)) :
+    sysDeliveries c i ((w, op, o) :: t) = sysDeliveries c i t + sysHit c i op o := by
+  cases op with
+  | gw g => simp [sysDeliveries, sysHit]
+  | its io =>
+    cases io <;> cases o <;> (try (rename_i oo; cases oo)) <;> simp [sysDeliveries, sysHit]
+
+/-- an executed message stays executed under every system step -/
+theorem sys_keeps_executed (w : System.World) (op : System.Op σ) (c i : Bytes)
+    (hx : w.its.gw.approvals c i = .executed) :
+    (System.step H S V k w op).1.its.gw.approvals c i = .executed := by
+  cases op with
+  | gw g => exact Cgp.Proofs.C02.step_executed H V ⟨w.its.gw, w.now⟩ g c i hx
+  | its io =>
+    obtain ⟨_, h2 | ⟨c', i', h2⟩⟩ := sys_its_gw H S k V w io
+    · rw [h2]; exact hx
+    · rw [h2]
+      simp only [Cgp.Proofs.C04.consumed]
+      split
+      · rfl
+      · exact hx
+
+/-- a successful delivery of `(c, i)` needs it not yet executed, and leaves it executed -/
+theorem sys_hit_step (w : System.World) (op : System.Op σ) (c i : Bytes)
+    (hh : sysHit c i op (System.step H S V k w op).2 ≠ 0) :
+    w.its.gw.approvals c i ≠ .executed ∧ (System.step H S V k w op).1.its.gw.approvals c i = .executed ∧
+    sysHit c i op (System.step H S V k w op).2 = 1 := by
+  cases op with
+  | gw g => simp [sysHit] at hh
+  | its io =>
+    cases io with
+    | execute c' i' sa p =>
+      rcases sys_execute_cases H S k V w c' i' sa p with ⟨⟨e, h1⟩, _⟩ | ⟨evs, h1, h2, h3, _⟩
+      · rw [h1] at hh; simp [sysHit] at hh
+      · rw [h1] at hh ⊢
+        simp only [sysHit] at hh ⊢
+        split at hh
+        · rename_i hci
+          obtain ⟨rfl, rfl⟩ := hci
+          refine ⟨(by rw [h3]; intro hc; cases hc), ?_, by simp⟩
+          rw [h2]; simp [Cgp.Proofs.C04.consumed]
+        · exact absurd rfl hh
+    | _ => simp [sysHit] at hh
+
+theorem sys_effect_aux (c i : Bytes) (ops : List (System.Op σ)) : ∀ w0 : System.World,
+    sysDeliveries c i (System.trace H S V k w0 ops) ≤ 1 ∧
+    (w0.its.gw.approvals c i = .executed → sysDeliveries c i (System.trace H S V k w0 ops) = 0) := by
+  induction ops with
+  | nil => intro w0; simp [System.trace, sysDeliveries]
+  | cons op ops ih =>
+    intro w0
+    obtain ⟨ih1, ih2⟩ := ih (System.step H S V k w0 op).1
+    rw [sys_trace_cons, sysDeliveries_cons]
+    by_cases hh : sysHit c i op (System.step H S V k w0 op).2 = 0
+    · rw [hh]
+      refine ⟨by omega, fun hx => ?_⟩
+      have := ih2 (sys_keeps_executed H S k V w0 op c i hx)
+      omega
+    · obtain ⟨h1, h2, h3⟩ := sys_hit_step H S k V w0 op c i hh
+      have h0 := ih2 h2
+      refine ⟨by omega, fun hx => absurd hx h1⟩
+
+/-- **exactly once, with the real gateway**: in every history of the whole system (any starting state, any gateway
+    operations — approvals, re-approvals, rotations, other applications consuming messages — in between) a (chain, id)
+    is delivered to the service at most once. No assumption about the gateway is left: its discipline is C02's theorem. -/
+theorem system_effect_at_most_once (w0 : System.World) (ops : List (System.Op σ)) (c i : Bytes) :
+    sysDeliveries c i (System.trace H S V k w0 ops) ≤ 1 := by
+  exact (sys_effect_aux H S k V c i ops w0).1
+
+/-- what the service does never disturbs the gateway's signer bookkeeping: after any service operation the gateway's
+    epoch, signer lookups, owner, operator and clock are what they were -/
+theorem service_keeps_gateway_auth (w : System.World) (op : Its.Op) :
+    let w' := (System.step H S V k w (.its op)).1
+    w'.its.gw.epoch = w.its.gw.epoch ∧ w'.its.gw.hashByEpoch = w.its.gw.hashByEpoch ∧
+    w'.its.gw.epochByHash = w.its.gw.epochByHash ∧ w'.its.gw.owner = w.its.gw.owner ∧
+    w'.its.gw.operator = w.its.gw.operator ∧ w'.its.gw.lastRot = w.its.gw.lastRot ∧ w'.now = w.now := by
+  exact service_keeps_gateway_auth_aux H S k V w op
+
+end SystemLevel
 
 end Cgp.Props.C04
